@@ -26,6 +26,53 @@ def writer_method_for(P, D, cls, wcls):
     return wcls.find_method('%s%s' % (prefix, name)), '%s%s' % (prefix, name)
 
 
+def reemit_rule(P, D, rep, rid, dw, remap):
+    from sa.values import ADict, Unk
+    go = dw.find_method('_get_options')
+    if go is None:
+        raise AnalysisError('DiffXDOMWriter._get_options not found (anchor vanished)')
+    for cname in SECTION_CLASSES:
+        cls = D.classes[cname]
+        if cname == 'DiffX':
+            continue
+        sname = P.fold_class_attr(cls, 'section_name')
+        rm = (remap or {}).get(sname, {})
+        I = Interp(P)
+        topts = sorted(typed_options(P, D, cls))
+        dropped = set()
+        npaths = 0
+
+        def thunk():
+            objs = D.build_tree(I)
+            o = objs[cname]
+            vals = {k: Unk('stored:%s' % k, taint=['ARG']) for k in topts}
+            o.attrs['options'] = ADict(dict(vals), name='options')
+            w = I.instantiate(dw, [], {}, None)
+            I.frames = []
+            res = I.call_function(go, [w, o], {}, None, self_cls=dw)
+            return vals, res
+        for path in I.explore(thunk):
+            npaths += 1
+            if npaths > 4000:
+                raise AnalysisError('too many paths in _get_options')
+            if path.outcome != 'return':
+                continue
+            vals, res = path.value
+            if not isinstance(res, ADict):
+                raise AnalysisError('_get_options does not return a mapping')
+            for k, v in vals.items():
+                tk = rm.get(k, k)
+                if res.items.get(tk) is not v:
+                    dropped.add(k)
+        if dropped:
+            rep.violation(rid, 'option-dropped:%s:%s' % (cname, ','.join(sorted(dropped))), go.loc(),
+                          'for %s sections the DOM writer can drop the stored option(s) %s depending on their value (e.g. a falsy '
+                          'value such as indent=0): the streaming writer\'s default is applied instead and the file differs from '
+                          'the tree' % (cname, sorted(dropped)), path=[dw.name + '._get_options'])
+        else:
+            rep.ok(rid, cname, {'options': topts, 'paths': npaths})
+
+
 def run(P, rep, tier):
     rep.explanation = (
         'Tree equality after a write/parse cycle is a runtime statement and is NOT decided. Decided: the tables of the two '
@@ -83,6 +130,10 @@ def run(P, rep, tier):
                 rep.violation(r1, 'untyped-default:%s:%s' % (cname, k), '%s:%d' % (cls.module.relpath, cls.node.lineno),
                               'default option %r of %s has no typed attribute' % (k, cname))
     rep.floor(r1, 10)
+
+    # ---- R8 every stored option is re-emitted -------------------------------------------------
+    r8 = rep.rule('C05-R8', 'the DOM writer passes on every stored option (whatever its value) to the streaming writer', reference=6)
+    reemit_rule(P, D, rep, r8, dw, remap)
 
     # ---- R2 handler table ---------------------------------------------------------------------
     r2 = rep.rule('C05-R2', 'DOM reader handler table is exhaustive over the 9 section ids', reference=9)
